@@ -35,6 +35,7 @@ class Report:
         self.remarks = []
         self.notes = {}
         self.floors = []
+        self.floor_failures = []
         self.emit = emit
         self.sensitivity = None
 
@@ -71,9 +72,16 @@ class Report:
         """fail closed when a rule matched fewer instances than were confirmed by hand."""
         self.floors.append({"rule": rule, "what": what, "found": found, "minimum": minimum})
         if found < minimum:
-            raise AnalysisError(
+            self.floor_failures.append(
                 "%s %s: only %d instance(s) of '%s' found, at least %d confirmed by hand - "
                 "the rule would pass vacuously" % (self.prop, rule, found, what, minimum))
+
+    def check_floors(self):
+        """a run that found no violation but matched too few instances is undecided, not a pass"""
+        if self.floor_failures:
+            viol, _ = self.classify()
+            if not viol:
+                raise AnalysisError("; ".join(self.floor_failures))
 
     def note(self, k, v):
         self.notes[k] = v
